@@ -133,3 +133,23 @@ reg("C07", "c07", [("direct", "plain", 2), ("scaling", "plain", 1), ("insolve", 
                "isolation and on the stream of W produced inside real solves.",
     level_note="Trusts numpy and vlib/ref_cone.py + vlib/ref_kkt.py (apply_W, packed KKT assembly).",
     design_ref="4/C07")
+
+reg("C06", "c06", [("presentations", "plain", 3), ("names", "plain", 1)], "exploration",
+    rule=CONE_GEN + "well-posed planted LPs (feasible / primal infeasible / unbounded) and QPs, cond <= 1e3; each is solved "
+         "in the base presentation (conelp/coneqp, dense, default KKT solver) and under one generated transformation: "
+         "sparse storage, another kktsolver name, the lp/socp/sdp/qp wrapper, operator form with a numpy KKT solver, "
+         "valid start points, a scalar inequality re-encoded as a 1-dim 'q' or order-1 's' cone, row permutation in 'l', "
+         "variable permutation, positive objective scaling, GLPK, DSDP. names part: every entry point (conelp, lp, socp, "
+         "sdp, coneqp, qp, cpl, cp, gp) x kktsolver string in {ldl, ldl2, qr, chol, chol2, foo, '', LDL, cholmod} with "
+         "counting wrappers around misc.kkt_* and the user F. Non-trivial = both presentations optimal (presentations), "
+         "an unsupported name (names); distinct = SHA-1 of case JSON.",
+    assumptions=["'unknown' whose recomputed residuals and gap are <= 1e-5 is treated as 'optimal' (escape clause of C05)",
+                 "optimal values compared through weak-duality brackets; x compared only when P is positive definite "
+                 "(strong-convexity bound)",
+                 "DSDP only on strictly feasible instances (known finding of C01); back-end 'unknown' is inconclusive"],
+    technique="metamorphic / differential property-based testing over pairs of presentations; call counting for early rejection",
+    level_text="~8e3 (quick) / 1.6e5 (thorough) pairs of presentations of one generated well-posed problem must agree on "
+               "status and optimal value (and on x when unique); every unsupported kktsolver name must be rejected with "
+               "ValueError before any KKT factorization or F(x) evaluation.",
+    level_note="Trusts the planted constructions, numpy, and the weak-duality bracket derivation (DESIGN 4/C05).",
+    design_ref="4/C06")
